@@ -23,6 +23,7 @@ EXPLANATION = (
     ' (ORDER-MODEL) abs, min, max, clamp (std/math.sy) and sign (preamble.lua) touch their arguments only through comparisons, negation and selection - checked on their syntax trees - so they are decision trees over the order of {x, -x, 0}; each is compared with its model on a grid that has a point in every order cell (a finite-model argument, not a sample); a definition that uses arithmetic is reported as not decided, never as a violation. (KEYED-EQ / KEYED-SIZE) equality of dicts and sets walks both operands and never uses `#` on a keyed table. (EXTERNALS type-arguments-given) no external leaves a generic library type without its arguments.'
     ' (SEARCH) an external shaped `[T], (T -> bool) -> Maybe(T)` leaves its loop where the predicate first holds; (VALUE-SEM) library functions store into the container they were given or a table they made, never into an element taken out of a container; (PURITY-DECL callbacks) `pu` externals take `pu` callbacks.'
     ' (VALUE-SEM identity) no library function compares values with rawequal; (NUM-REP) floor answers the integer subtype (math.floor).'
+    ' (VALUE-SEM presence) no runtime function lets the truth of an element it read stand for its presence; (KEY-NORM strings-stay-distinct) keys are not read as numbers.'
 )
 UNDECIDED = "the arithmetic helpers div and floor (numeric identities), model equivalence over operation histories, the semantics of map/filter/fold callbacks, iteration order of pairs()."
 
